@@ -1,8 +1,9 @@
 /-
   C20 — Blocked threads stay blocked: no busy waiting among waiters.
 
-  What is proved: a thread parked in Signal.wait() (M1) or Lock.wait() (M3) is DISABLED — it takes no
-  step at all — until its own wake-up source fires; a single Lock waiter leaves the system quiescent.
+  What is proved: a thread parked in Signal.wait() (M1), Lock.wait() (M3) or Queue.pop()/add() (M4) is
+  DISABLED — it takes no step at all — until its own wake-up source fires; a single Lock waiter leaves the
+  system quiescent.
   What is NOT true of the unchanged code, and is proved as a negation witness: two or more threads
   re-waiting on the same Lock wake each other forever although nothing else happens
   (`C20_violated_two_waiters_pingpong`).  That is the open known finding
@@ -10,6 +11,7 @@
 -/
 import MoThreads.Props.C02
 import MoThreads.Props.C06
+import MoThreads.Props.C09
 namespace MoThreads
 open MoThreads
 
@@ -29,6 +31,20 @@ theorem C20_lock_waiter_stays_parked {s : Monitor.State} (t w : Nat) (c : Monito
     (hp : s.pc t = .parked w c tl) (hf : s.fired w = false) (ht : Monitor.tillOn s tl = false) :
     Monitor.step s t = none := by
   unfold Monitor.step; rw [hp]; simp [hf, ht]
+
+/-- Queue.pop(): a consumer parked on an empty queue does nothing while it is not signalled (no thread
+left the lock), the queue is not closed and its till has not fired. -/
+theorem C20_queue_consumer_stays_parked {s : Queue.State} (t : Nat) (tl : Option Nat) (hp : s.pc t = .pParked tl)
+    (hsig : s.signalled t = false) (hcl : s.closed = false) (ht : Queue.tillOn s tl = false) : Queue.step s t = none := by
+  unfold Queue.step; rw [hp]; simp [hsig, hcl, ht]
+
+/-- Queue.add()/push()/extend() on a full queue: a parked producer does nothing while it is not signalled and
+its wake-up timer has not fired — the caller's till on a silent queue, the stall timer of THIS wait otherwise
+(`C08_stall_timer_is_fresh`: an old, already fired stall timer cannot resume it again). -/
+theorem C20_queue_producer_stays_parked {s : Queue.State} (t : Nat) (a : Queue.Act) (tl : Option Nat)
+    (hp : s.pc t = .sParked a tl) (hsig : s.signalled t = false)
+    (ht : (if s.silent then Queue.tillOn s tl else s.stalled t) = false) : Queue.step s t = none := by
+  unfold Queue.step; rw [hp]; simp [hsig, ht]
 
 /-- A parked Lock waiter is never signalled spuriously: if its waiter signal is fired, some thread
 performed a release (the waiter was popped by a lock holder) — `fired` implies it left the list. -/
